@@ -372,3 +372,37 @@ def call_base_rule(m, rid):
                 text, shown, "the pieces do not re-assemble to the input -- a character of the statement is dropped, so text with a surplus "
                 "bracket is accepted" if want == "reassemble" or want is not None else "text without the `lhs(...)` shape is accepted"), m.loc(f))
     return r
+
+
+def separator_rule(m, rid):
+    r = RuleResult(rid, "SeparatorBase.match, decided as a table: `[lhs] : [rhs]` is cut at the first ':' and each side reaches its class with "
+                        "the blanks around the ':' removed (the printer writes `lhs : rhs`, so a blank left on a piece breaks the re-parse)")
+    r.floor = 8
+    f = m.method(m.key("SeparatorBase", UTILS), "match")
+    if f is None:
+        r.error("SeparatorBase.match vanished")
+        return r
+    ev = PE.Evaluator({"string_replace_map": lambda s_, lower=False: (s_, lambda x: x)})
+    L, R = ctor("L"), ctor("R")
+    cases = [
+        ("a:b", {}, ("a", "b")), ("a : b", {}, ("a", "b")), ("a :  - 1", {}, ("a", "- 1")), ("- 9 : - 1", {}, ("- 9", "- 1")),
+        (":b", {}, (None, "b")), ("a:", {}, ("a", None)), (": - 10", {}, (None, "- 10")), ("a : b : c", {}, ("a", "b : c")),
+        ("ab", {}, None), ("", {}, None), (":b", {"require_lhs": True}, None), ("a :", {"require_rhs": True}, None),
+    ]
+    for text, kw, want in cases:
+        r.instances += 1
+        got = run(ev, f, [L, R, text], kw)
+        if isinstance(got, PE.PyRaise):
+            ok, shown = False, "raises %s" % got.exc_type
+        elif got is None:
+            ok, shown = want is None, None
+        else:
+            shown = tuple(x.text if isinstance(x, Node) else x for x in got)
+            ok = want is not None and shown == want
+        r.ob(ok, "SeparatorBase.match(L, R, %r%s) -> %r" % (text, ", %s" % kw if kw else "", shown))
+        if not ok:
+            r.fail("SeparatorBase|%s" % text, "SeparatorBase.match(L, R, %r%s) hands %r to the operand classes, expected %r: %s" % (
+                text, ", %s" % kw if kw else "", shown, want,
+                "a blank stays on a piece (`CASE (- 9 : - 1)`, which is what the printer emits, is then rejected)" if want and shown and
+                any(isinstance(x, str) and x != x.strip() for x in shown) else "the cut is not at the first ':'"), m.loc(f))
+    return r
